@@ -167,11 +167,12 @@ def driver(name, sources, variant="default", wraps=(), extra_cflags=(), out=None
     key = _hash_paths(srcs + hdrs, L["archive"] + " ".join(wraps) + " ".join(extra_cflags))
     bdir = os.path.join(BUILD, "drv")
     os.makedirs(bdir, exist_ok=True)
-    exe = out or os.path.join(bdir, "%s-%s-%s" % (name, variant.replace("+", "_"), key))
-    with _Lock("drv-" + name + "-" + variant.replace("+", "_")):
+    vtag = variant.replace("+", "_") + ("" if opt == "-O1" else opt.replace("-", "_"))
+    exe = out or os.path.join(bdir, "%s-%s-%s" % (name, vtag, key))
+    with _Lock("drv-" + name + "-" + vtag):
         if not os.path.exists(exe):
             for f in os.listdir(bdir):
-                if f.startswith("%s-%s-" % (name, variant.replace("+", "_"))):
+                if f.startswith("%s-%s-" % (name, vtag)):
                     try:
                         os.unlink(os.path.join(bdir, f))
                     except OSError:
